@@ -6,7 +6,7 @@ mod verif_witness {
 	use crate::core::{Candle, IndicatorConfig, IndicatorInstance, Method, ValueType};
 	use crate::helpers::MA;
 	use crate::indicators::RelativeStrengthIndex;
-	use crate::methods::{EMA, TSI};
+	use crate::methods::{Vidya, EMA, TSI};
 
 	fn small() -> ValueType {
 		// integers in -8..=8 (exactly representable; keeps the arithmetic exact enough for a tight tolerance)
@@ -71,6 +71,34 @@ mod verif_witness {
 			let r = inst.next(&Candle { open: c, high: c, low: c, close: c, volume: 1.0 });
 			let v = r.value(0);
 			assert!(v >= -1e-9 && v <= 1.0 + 1e-9);
+			k += 1;
+		}
+	}
+
+	// Vidya(2), 4 steps: output follows the CMO-scaled recurrence computed from scratch over the last 2 changes
+	#[kani::proof]
+	#[kani::unwind(6)]
+	fn vk_vidya_recurrence_4steps() {
+		let x0 = small();
+		let mut m = Vidya::new(2, &x0).unwrap();
+		let f = 2.0 / 3.0;
+		let mut h = [x0, x0, x0]; // last three inputs (two changes)
+		let mut out = x0;
+		let mut k = 0;
+		while k < 4 {
+			let x = small();
+			h = [h[1], h[2], x];
+			let (c1, c2) = (h[1] - h[0], h[2] - h[1]);
+			let up = (if c1 > 0.0 { c1 } else { 0.0 }) + (if c2 > 0.0 { c2 } else { 0.0 });
+			let dn = (if c1 < 0.0 { -c1 } else { 0.0 }) + (if c2 < 0.0 { -c2 } else { 0.0 });
+			out = if up != 0.0 || dn != 0.0 {
+				let cmo = ((up - dn) / (up + dn)).abs();
+				x * (f * cmo) + (1.0 - f * cmo) * out
+			} else {
+				x
+			};
+			let got = m.next(&x);
+			assert!(close(got, out));
 			k += 1;
 		}
 	}
